@@ -15,6 +15,7 @@ operation the `_options` of every logger created so far and the `extra` of every
 far are re-read and compared with the deep snapshot taken when they were created (aliasing).
 """
 import asyncio
+import contextlib
 import contextvars
 import json
 import os
@@ -43,15 +44,38 @@ ASSUMPTIONS = ["Python >= 3.7 contextvars (threads start with an empty context: 
 NKEYS = 5
 TIMEOUT = 20.0
 
+# Key alphabet.  0..4 ordinary keys (heavy overlap between layers), 5 a key only patchers write, then names
+# that collide with parameter names / locals of the API the keys travel through as **kwargs (bind,
+# contextualize, the logging methods) or as dict keys (configure(extra=), patchers): every one of them is a
+# legitimate key of `extra` in every layer.  (Excluded on purpose: the name-mangled spellings `_Logger__self`,
+# `_Logger__message`, `_Logger__level`, which ARE the real parameter names.)
+RESERVED = ["self", "__self", "message", "__message", "level", "__level", "record", "exception", "args", "kwargs",
+            "name", "extra", "cls", "patcher", "patchers", "options", "core", "depth", "capture", "lazy", "colors",
+            "raw", "handlers", "sink", "format", "filter", "context", "token", "function", "time", "elapsed",
+            "from_decorator", "new_context", "log_record", "mcs", "klass"]
+KEY_NAMES = ["k%d" % i for i in range(NKEYS + 1)] + RESERVED
+KEY_INDEX = {n: i for i, n in enumerate(KEY_NAMES)}
+LOG_METHODS = ["trace", "debug", "info", "success", "warning", "error", "critical", "log"]
+
 
 def key_name(k):
-    return "k%d" % k
+    return KEY_NAMES[k]
+
+
+def pick_key(rng):
+    if rng.chance(22):
+        return NKEYS + 1 + rng.below(len(RESERVED))
+    return rng.below(NKEYS)
 
 
 # ============================================================================ programme generation
 def gen_kw(rng, st, lo=0, hi=3):
     n = rng.range(lo, hi)
-    keys = rng.shuffle(list(range(NKEYS)))[:n]
+    keys = []
+    while len(keys) < n:
+        k = pick_key(rng)
+        if k not in keys:
+            keys.append(k)
     out = []
     for k in keys:
         st["serial"] += 1
@@ -75,7 +99,8 @@ def gen_patcher(rng, st, chain=None):
         return list(st["pdefs"][pid])
     st["serial"] += 1
     st["npatch"] += 1
-    p = [st["npatch"], rng.below(NKEYS + 1), st["serial"], 1 if rng.chance(30) else 0, rng.below(2)]
+    p = [st["npatch"], rng.below(NKEYS + 1) if rng.chance(80) else pick_key(rng), st["serial"],
+         1 if rng.chance(30) else 0, rng.below(2)]
     st["pdefs"][p[0]] = p       # key NKEYS = a key no layer uses
     return p
 
@@ -101,7 +126,14 @@ def pick_logger(rng, st):
 
 def gen_program(rng, maxops, maxctx, asyncio_mode):
     """global trace: list of op dicts {"c": ctx, "op": kind, ...}"""
-    st = {"serial": 0, "npatch": 0, "nlog": 1, "nh": 0, "pdefs": {}, "chains": [[]]}
+    st = {"serial": 0, "npatch": 0, "nlog": 1, "nh": 0, "pdefs": {}, "chains": [[]], "recflag": [False]}
+
+    def gen_log(c, kw):
+        l = pick_logger(rng, st)
+        if st["recflag"][l]:
+            # documented: with opt(record=True) a keyword argument named `record` is a TypeError
+            kw = [x for x in kw if x[0] != KEY_INDEX["record"]]
+        emit(c, op="log", l=l, kw=kw, via=rng.choice(LOG_METHODS))
     depth = {0: 0}
     alive = [0]
     nctx = 1
@@ -126,7 +158,7 @@ def gen_program(rng, maxops, maxctx, asyncio_mode):
         r = rng.below(100)
         d = depth[c]
         if r < 30:
-            emit(c, op="log", l=pick_logger(rng, st), kw=gen_kw(rng, st, 0, 2))
+            gen_log(c, gen_kw(rng, st, 0, 2))
         elif r < 46:
             if d < 4:
                 style = "with"
@@ -156,6 +188,7 @@ def gen_program(rng, maxops, maxctx, asyncio_mode):
             l = pick_logger(rng, st)
             emit(c, op="bind", l=l, kw=gen_kw(rng, st, 0 if rng.chance(10) else 1, 3))
             st["chains"].append(list(st["chains"][l]))
+            st["recflag"].append(st["recflag"][l])
             st["nlog"] += 1
         elif r < 78:
             l = pick_logger(rng, st)
@@ -166,11 +199,14 @@ def gen_program(rng, maxops, maxctx, asyncio_mode):
             pt = gen_patcher(rng, st, st["chains"][l])
             emit(c, op="patch", l=l, p=pt)
             st["chains"].append(st["chains"][l] + [pt[0]])
+            st["recflag"].append(st["recflag"][l])
             st["nlog"] += 1
         elif r < 84:
             l = pick_logger(rng, st)
-            emit(c, op="opt", l=l, f=gen_flags(rng))
+            fl = gen_flags(rng)
+            emit(c, op="opt", l=l, f=fl)
             st["chains"].append(list(st["chains"][l]))
+            st["recflag"].append(bool(fl["record"]))
             st["nlog"] += 1
         elif r < 89:
             extra = None if rng.chance(25) else gen_kw(rng, st, 0, 3)
@@ -192,7 +228,7 @@ def gen_program(rng, maxops, maxctx, asyncio_mode):
                 st["nh"] -= 1
         else:
             if d == 0 and c != 0 and len(alive) > 1:
-                emit(c, op="log", l=pick_logger(rng, st), kw=[])
+                gen_log(c, [])
                 emit(c, op="end")
                 alive.remove(c)
     # epilogue: close everything in a random order, log once more at depth 0
@@ -206,7 +242,7 @@ def gen_program(rng, maxops, maxctx, asyncio_mode):
                 emit(c, op="exit")
                 depth[c] -= 1
         else:
-            emit(c, op="log", l=pick_logger(rng, st), kw=[])
+            gen_log(c, [])
             emit(c, op="end")
             alive.remove(c)
     return trace
@@ -252,6 +288,23 @@ def op_token(op):
     if k == "end":
         return None
     raise ValueError(k)
+
+
+def describe(op):
+    """the call in Python spelling (for messages)"""
+    k = op["op"]
+    kws = ", ".join("%s=%d" % (key_name(a), b) for a, b in op.get("kw") or [])
+    if k == "bind":
+        return "logger#%d.bind(%s)" % (op["l"], kws)
+    if k == "enter":
+        return "logger.contextualize(%s)" % kws
+    if k == "log":
+        return "logger#%d.%s(%s'm'%s)" % (op["l"], op.get("via", "info"), "'INFO', " if op.get("via") == "log" else "",
+                                          (", " + kws) if kws else "")
+    if k == "configure":
+        return "logger.configure(extra=%s, patcher=%s)" % (
+            None if op["extra"] is None else {key_name(a): b for a, b in op["extra"]}, op["patcher"])
+    return op_token(op)
 
 
 def prog_line(trace):
@@ -352,6 +405,10 @@ class Spec:
             if not self.handlers:
                 return
             o = self.loggers[op["l"]]
+            if o["flags"][2] and KEY_INDEX["record"] in dict(op["kw"]):
+                # documented restriction of opt(record=True); never generated, kept for shrunk traces
+                self.expected.append(("e", c, "TypeError"))
+                return
             layers = [dict(self.core_extra), self.ctx_layer(c), {}]
             for kw in o["bound"]:
                 layers[2].update(kw)
@@ -425,6 +482,14 @@ def make_boom(kind, k):
     return b
 
 
+class _NullDecorator(contextlib.ContextDecorator):
+    def __enter__(self):
+        return self
+
+    def __exit__(self, *exc):
+        return False
+
+
 class _Turn:
     """awaitable used by the thread-mode trampoline: yields itself, receives the next operation"""
 
@@ -475,6 +540,7 @@ class Run:
         self.lsnaps = [self.snap_logger(self.logger0)]
         self.records = []          # (record object, snapshot of extra)
         self.pobjs = {}            # patcher id -> PatcherObj
+        self.error_details = []
         self.events = []
         self.handler_ids = []      # loguru ids, in installation order
         self.hnum = {}             # loguru id -> our number
@@ -491,10 +557,7 @@ class Run:
     def canon(d):
         out = {}
         for k, v in d.items():
-            if isinstance(k, str) and k[:1] == "k" and k[1:].isdigit():
-                out[int(k[1:])] = v
-            else:
-                out[k] = v
+            out[KEY_INDEX.get(k, k)] = v
         return out
 
     def snap_logger(self, lg):
@@ -548,7 +611,12 @@ class Run:
         try:
             if k == "log":
                 o = lg[op["l"]]
-                o.info("m", **self.kwargs(op["kw"], lazy=bool(o._options[3])))
+                kws = self.kwargs(op["kw"], lazy=bool(o._options[3]))
+                via = op.get("via", "info")
+                if via == "log":
+                    o.log("INFO", "m", **kws)
+                else:
+                    getattr(o, via)("m", **kws)
             elif k == "bind":
                 new = lg[op["l"]].bind(**self.kwargs(op["kw"]))
                 lg.append(new)
@@ -583,6 +651,10 @@ class Run:
                 raise ValueError(k)
         except Exception as e:  # an exception leaving a loguru call is an observable
             self.events.append(("e", self.cur, core.err_kind(e)))
+            self.error_details.append("%s -> %s: %s" % (describe(op), type(e).__name__, e))
+            if k in ("bind", "patch", "opt"):     # keep logger numbering aligned: stand-in = the receiver
+                lg.append(lg[op["l"]])
+                self.lsnaps.append(self.snap_logger(lg[op["l"]]))
 
     async def body(self, w, first_done):
         """inside a block (or at top level): execute operations until exit/end; raises _Boom on raise"""
@@ -626,18 +698,26 @@ class Run:
         lg = self.loggers[0]
         kw = self.kwargs(op["kw"])
         style = op.get("style", "with")
+
+        def make_cm():
+            try:
+                return lg.contextualize(**kw)
+            except Exception as e:   # the call itself rejected the keys: observable; keep the block structure
+                self.events.append(("e", self.cur, core.err_kind(e)))
+                self.error_details.append("%s -> %s: %s" % (describe(op), type(e).__name__, e))
+                return _NullDecorator()
         try:
             if style == "with" or self.mode == "asyncio":
-                with lg.contextualize(**kw):
+                with make_cm():
                     await self.body(w, True)
             else:
                 if style == "deco-reuse":
                     key = json.dumps(op["kw"])
                     cm = w.decos.get(key)
                     if cm is None:
-                        cm = w.decos[key] = lg.contextualize(**kw)
+                        cm = w.decos[key] = make_cm()
                 else:
-                    cm = lg.contextualize(**kw)
+                    cm = make_cm()
 
                 @cm
                 def decorated():
@@ -847,8 +927,9 @@ def judge(ctx, trace, mode, model_out=None, report=True):
         got = run.events[i] if i < len(run.events) else None
         exp = spec.expected[i] if i < len(spec.expected) else None
         problems.append(("oracle", "event #%d: the property requires %r, the implementation produced %r "
-                         "(p = patcher call (ctx, patcher, extra shown), d = delivery (ctx, handler, extra))"
-                         % (i, exp, got)))
+                         "(p = patcher call (ctx, patcher, extra shown), d = delivery (ctx, handler, extra), "
+                         "e = exception left a loguru call)%s"
+                         % (i, exp, got, ("; " + "; ".join(run.error_details[:2])) if run.error_details else "")))
     for i, snap in enumerate(run.lsnaps):
         if i < len(spec.loggers) and (snap[0], snap[1], snap[2]) != spec.logger_view(i):
             problems.append(("options", "logger #%d has options %r, the property requires %r"
@@ -954,8 +1035,51 @@ def shrink(trace, mode, kinds):
             out.append(op)
         return out
 
+    def drop_op(t, i):
+        """remove operation i; when it created a logger, later references are renumbered (references to the
+        removed logger go to its receiver)"""
+        op = t[i]
+        if op["op"] == "enter":
+            # remove the block: the enter and the share of the operation that closes it
+            c, d = op["c"], 1
+            out = t[:i]
+            rest = t[i + 1:]
+            for j, o in enumerate(rest):
+                tgt = o["target"] if o["op"] == "cancel" else o["c"]
+                if d > 0 and tgt == c and o["op"] in ("enter", "exit", "raise", "cancel"):
+                    if o["op"] == "enter":
+                        d += 1
+                    elif o["op"] == "exit":
+                        d -= 1
+                        if d == 0:
+                            continue
+                    else:
+                        if o["k"] >= d:
+                            o = dict(o)
+                            o["k"] -= 1
+                            d = 0
+                            if o["k"] == 0 and o["op"] == "raise":
+                                continue
+                        else:
+                            d -= o["k"]
+                out.append(o)
+            return out
+        if op["op"] not in ("bind", "patch", "opt"):
+            return t[:i] + t[i + 1:]
+        idx = 1 + sum(1 for o in t[:i] if o["op"] in ("bind", "patch", "opt"))   # index of the logger it made
+        out = t[:i]
+        for o in t[i + 1:]:
+            if "l" in o:
+                o = dict(o)
+                if o["l"] == idx:
+                    o["l"] = op["l"]
+                elif o["l"] > idx:
+                    o["l"] -= 1
+            out.append(o)
+        return out
+
     cur = list(trace)
-    budget = 150
+    budget = 200
     x = max(op["c"] for op in cur)
     while x >= 1 and budget > 0:
         # a context can go only if none of its descendants stays
@@ -971,7 +1095,7 @@ def shrink(trace, mode, kinds):
         i = len(cur) - 1
         while i >= 0 and budget > 0:
             if cur[i]["op"] not in ("end",):
-                cand = cur[:i] + cur[i + 1:]
+                cand = drop_op(cur, i)
                 if valid(cand):
                     budget -= 1
                     if still(cand):
